@@ -273,6 +273,15 @@ def _as_index(I, k):
 def getitem(I, o, k):
     if isinstance(o, SymStr):
         return str_getitem(I, o, k)
+    if isinstance(o, (memoryview, bytearray)) and isinstance(k, slice) and "symfiles" in I.options:
+        from . import stubs
+        n = len(o)
+        lo = 0 if k.start is None else iterm(k.start)
+        hi = n if k.stop is None else iterm(k.stop)
+        if isinstance(lo, int) and lo < 0 or isinstance(hi, int) and hi < 0 or k.step not in (None, 1):
+            I.unsupported("buffer slice with negative bounds or a step")
+        hi = If(hi > n, n, hi) if not isinstance(hi, int) else min(hi, n)
+        return stubs.SymBufView(o, lo, hi)
     if isinstance(o, str) and (isinstance(k, SymInt) or (isinstance(k, slice) and contains_sym([k.start, k.stop, k.step]))):
         return str_getitem(I, SymStr([Atom.lit(o)]), k)
     if isinstance(o, dict) and (isinstance(k, SYM) or (isinstance(k, str) and any(isinstance(x, SymKey) for x in o))):
@@ -382,7 +391,13 @@ def concretize(I, v, limit=64):
 def _enumerate_values(I, v, limit):
     """all values the symbolic str/int can take on this path (memoised so that prefix replays agree)"""
     def enum():
-        s = I.solver
+        if I.fresh_mode:
+            s = z3.Solver()
+            s.set("timeout", I.hard_timeout_ms)
+            for c in I.pc:
+                s.add(c if not isinstance(c, bool) else z3.BoolVal(c))
+        else:
+            s = I.solver
         s.push()
         vals = []
         try:
@@ -405,7 +420,8 @@ def _enumerate_values(I, v, limit):
                 if len(vals) > limit:
                     raise UnsupportedConstruct("a symbolic value used as a container key has more than %d possible values" % limit)
         finally:
-            s.pop()
+            if not I.fresh_mode or s is not I.solver:
+                s.pop()
         vals.sort()
         return vals
     return I.oracle(enum)
@@ -1801,7 +1817,7 @@ class SymMatch(object):
         if isinstance(g, SYM):
             I.unsupported("symbolic group index")
         if g == 0:
-            return mk([self.subject.slice(0, self.enc.end())])
+            return mk([self.subject.slice(self.enc.start(), self.enc.end())])
         if g < 0 or g > self.prog.groups:
             I.raise_(IndexError("no such group"))
         if g in self._g:
@@ -1856,7 +1872,7 @@ class SymMatch(object):
         if isinstance(g, str):
             g = self.prog.groupindex[g]
         if g == 0:
-            return 0, mkint(self.enc.end())
+            return mkint(self.enc.start()), mkint(self.enc.end())
         present, st, en = self.enc.group(g)
         if g in self.prog.mandatory or I.decide(present):
             return mkint(st), mkint(en)
@@ -1878,14 +1894,14 @@ class SymMatch(object):
 _ENC_CACHE = {}
 
 
-def regex_match(I, pattern, flags, s, full=False, pattern_obj=None):
+def regex_match(I, pattern, flags, s, full=False, pattern_obj=None, search=False):
     I.stats.patterns.add(pattern)
     try:
-        prog = rx.program(pattern, flags)
+        prog = rx.program(pattern, flags, search)
     except rx.Unsupported as e:
         I.unsupported(str(e))
     a = s.flat()
-    key = (pattern, flags, id(a), full)
+    key = (pattern, flags, id(a), full, search)
     ent = _ENC_CACHE.get(key)
     if ent is None or ent[1] is not a:
         if len(_ENC_CACHE) > 2000:
@@ -1936,7 +1952,19 @@ def _re_compile(I, args, kwargs):
     return NotImplemented
 
 
-@func_model(re.search, re.sub, re.findall, re.finditer, re.subn)
+@func_model(re.search)
+def _re_search(I, args, kwargs):
+    pat, s = args[0], args[1]
+    if isinstance(pat, re.Pattern):
+        return _pattern_search(I, pat, [s], {})
+    if isinstance(pat, str):
+        I.stats.patterns.add(pat)
+    if isinstance(s, SymStr) and isinstance(pat, str):
+        return regex_match(I, pat, _flags_of(I, args, kwargs, 2), s, search=True)
+    return NotImplemented
+
+
+@func_model(re.sub, re.findall, re.finditer, re.subn)
 def _re_other(I, args, kwargs):
     if isinstance(args[0], str):
         I.stats.patterns.add(args[0])
@@ -1969,7 +1997,20 @@ def _pattern_fullmatch(I, pat, args, kwargs):
     return NotImplemented
 
 
-@method_model(re.Pattern, "search", "sub", "subn", "findall", "finditer", "split")
+@method_model(re.Pattern, "search")
+def _pattern_search(I, pat, args, kwargs):
+    s = args[0]
+    I.stats.patterns.add(pat.pattern)
+    if isinstance(s, SymStr):
+        if len(args) > 1:
+            I.unsupported("Pattern.search with pos")
+        return regex_match(I, pat.pattern, pat.flags & ~re.UNICODE, s, pattern_obj=pat, search=True)
+    if isinstance(s, SYM):
+        I.raise_(TypeError("expected string or bytes-like object"))
+    return NotImplemented
+
+
+@method_model(re.Pattern, "sub", "subn", "findall", "finditer", "split")
 def _pattern_other(I, pat, args, kwargs):
     I.stats.patterns.add(pat.pattern)
     if all_clean(args, kwargs):
